@@ -148,3 +148,75 @@ Proof.
   constructor; assumption.
 Qed.
 End FileCls.
+
+(* ---------- session_nd is stronger than the side condition file_session_ok of the exact evaluation ---------- *)
+Lemma nwdl_app_like A X : is_normalized_wdl A = true -> wdl_like (A ++ X) = true.
+Proof.
+  unfold is_normalized_wdl. intros H. apply andb_true_iff in H. destruct H as [H _].
+  destruct (is_wdl_cases A H) as (a & b & -> & Ha & Hb). cbn [app wdl_like]. rewrite Ha.
+  destruct Hb as [->| ->]; reflexivity.
+Qed.
+
+Lemma not_like_not_bar t : wdl_like t = false -> wdl_bar t = false.
+Proof.
+  destruct t as [|a [|b [|c r]]]; cbn [wdl_like wdl_bar]; try reflexivity.
+  destruct (is_alpha a); [|reflexivity]. cbn [andb]. destruct (b =? 124); [|reflexivity].
+  rewrite orb_true_r. discriminate.
+Qed.
+
+Lemma strip_tnl_cons c r : strip_tnl (c :: r) = if is_tnl c then strip_tnl r else c :: strip_tnl r.
+Proof. destruct (is_tnl c) eqn:E; unfold strip_tnl; cbn [filter]; cbv [C06_FragQuery.not_tnl C02_Enc.not_tnl]; rewrite E; reflexivity. Qed.
+
+Lemma flush_ok_nd l : forall acc pend, wdl_like (etext (acc ++ rev pend ++ strip_tnl l)) = false ->
+  flush_ok acc pend l = true.
+Proof.
+  induction l as [|c r IH]; intros acc pend H; cbn [flush_ok]; [reflexivity|].
+  rewrite strip_tnl_cons in H. destruct (is_tnl c) eqn:Et.
+  - apply IH. cbn [rev app]. rewrite <- app_assoc. exact H.
+  - apply andb_true_iff. split.
+    + apply negb_true_iff. destruct (is_normalized_wdl (etext acc)) eqn:En; [|reflexivity].
+      rewrite etext_app in H. rewrite (nwdl_app_like _ _ En) in H. discriminate H.
+    + apply IH. cbn [rev]. rewrite <- app_assoc. exact H.
+Qed.
+
+Lemma seg_nd_push_ok P seg : seg_nd seg = true -> push_ok P seg = true.
+Proof.
+  unfold seg_nd, push_ok. intros H. destruct (seg_skipped (strip_tnl seg)); [reflexivity|]. cbn [orb] in *.
+  apply negb_true_iff in H. apply orb_true_iff. right. unfold root_seg_ok. apply andb_true_iff. split.
+  - apply flush_ok_nd. cbn [rev app]. exact H.
+  - apply negb_true_iff. apply not_like_not_bar. exact H.
+Qed.
+
+Lemma nd_extend_ok segs : forall P, forallb seg_nd segs = true -> extend_ok P segs = true.
+Proof.
+  induction segs as [|s r IH]; intros P H; cbn [extend_ok]; [reflexivity|].
+  cbn [forallb] in H. apply andb_true_iff in H. destruct H as [H1 H2].
+  rewrite (seg_nd_push_ok P s H1). cbn [andb]. apply IH. exact H2.
+Qed.
+
+Lemma session_nd_ok ops : forall P, session_nd ops = true -> file_session_ok P ops = true.
+Proof.
+  induction ops as [|o r IH]; intros P H; cbn [file_session_ok]; [reflexivity|].
+  unfold session_nd in H. cbn [forallb] in H. apply andb_true_iff in H. destruct H as [H1 H2].
+  rewrite (IH _ H2). rewrite andb_true_r.
+  destruct o; cbn [op_ok op_nd] in *; try reflexivity.
+  - apply seg_nd_push_ok. exact H1.
+  - apply nd_extend_ok. exact H1.
+Qed.
+
+Section FileClsNd.
+Variable dbg : bool.
+Variable hp hpo : list N -> result host.
+Variable hd : host -> list N.
+Hypothesis HRT : HostRT hp hpo hd.
+
+(* the session theorem under the single side condition session_nd: the result is canonical and its text is explicit *)
+Theorem psm_FileCanon_nd u ops u' : FileCanon hp hd u -> session_nd ops = true -> Forall psm_op_usv ops ->
+  path_segments_session dbg u ops = Some (u', SOk) -> nlen (ser u') <= U32_MAX_P ->
+  FileCanon hp hd u' /\ u' = with_path u (session_text STFile (path_bytes u) ops).
+Proof.
+  intros FC Hn Hu E Hb. pose proof (session_nd_ok ops (path_bytes u) Hn) as Hok. split.
+  - exact (psm_FileCanon dbg hp hpo hd HRT u ops u' FC Hok Hn Hu E Hb).
+  - destruct (psm_session_FileCanon dbg hp hpo hd HRT u ops u' FC Hok Hu E) as (_ & X & _). exact X.
+Qed.
+End FileClsNd.
